@@ -71,11 +71,12 @@ var plans = map[string]Plan{
 	},
 	"C03": {
 		Level: "exploration",
-		Rule: "cases are (bytes, requested wire type, read segmentation): uniform random bytes; grammar-aware mutations (length/count edits incl. -1, -2^31, 2^31-1, true+-1; type-byte swaps; bool bytes; field ids; truncation; bit flips; insert/delete) of reference encodings of random trees; every prefix of valid encodings; deep-nesting probes in child processes. " +
+		Rule: "cases are (bytes, requested wire type, read segmentation and concrete source types): the random-access decoder reads from a drawn io.ReaderAt (*bytes.Reader, *strings.Reader, *io.SectionReader, or a plain one that reports io.EOF together with the last bytes of the input or only on the next call; never short reads), the streaming reader and Skip from the drawn segmentation with and without Seek and, in two cases of five, from *bytes.Buffer, *bytes.Reader, *strings.Reader, *bufio.Reader or *io.SectionReader; inputs: uniform random bytes; grammar-aware mutations (length/count edits incl. -1, -2^31, 2^31-1, true+-1; type-byte swaps; bool bytes; field ids; truncation; bit flips; insert/delete) of reference encodings of random trees; every prefix of valid encodings; deep-nesting probes in child processes. " +
 			"Oracle: no panic, no hang (20s watchdog, re-tried), decode+force success => re-encoding == consumed prefix (both readers) and Skip consumes exactly the same (seekable and non-seekable). " +
 			"Non-trivial: the input decodes to a tree with a non-empty container, or a length/count/type byte was edited. Distinct: SHA-256 of (input, type). Also: wire.EvaluateValue must accept exactly the inputs whose lazily decoded containers can all be read element by element (key ra/evaluate-disagrees); unit big-binaries: valid structs of 1-3 binaries around the 1 MiB threshold of the streaming reader (symbolic cases, input rebuilt on replay).",
 		Assumptions: []string{
 			"internal/bridge's schema-less stream walker is a legitimate caller of stream.Reader (it rejects unknown type codes itself)",
+			"bytes consumed = the position the owner of the source observes afterwards (Seek(0, current), bytes.Buffer.Len, bufio: handed out, not read ahead)",
 			"a 20 s watchdog (x3 retries) on <=64 KiB inputs stands in for 'never hangs'",
 			"deep-nesting probe: a child process dying with 'stack overflow' is the observation; depths 2^12..2^22",
 		},
@@ -110,13 +111,15 @@ var plans = map[string]Plan{
 	},
 	"C13": {
 		Level: "exploration",
-		Rule: "cases are (decoding API, message <=96 bytes): a complete grid placing 2^16, 2^20, 2^24, 2^28, 2^31-1 at every position where the format carries a length or count (binary length; list/set count x 11 element kinds; map count x 8 key/value kinds; nested positions; top-level containers; strict and legacy envelope name length; frame length; the same bodies behind an envelope) x every API; every container/binary field of the repository's generated plugin-API types and of freshly generated programs (top level and one struct level down) x {FromWire(Decode), Decode(stream)}; plus rapid-generated mutated short messages. " +
-			"Each call runs in a child process (RLIMIT_AS 6 GiB); oracle: runtime.MemStats.TotalAlloc delta <= 24 MiB + 64*N, CPU <= 2 s (re-measured alone twice), child not killed. " +
-			"Non-trivial: the message carries a declared length >= 2^16 or is a mutation. Distinct: SHA-256 of (API, message).",
+		Rule: "cases are (decoding API, message <=96 bytes): a complete grid placing 2^16, 2^20, 2^24, 2^28, 2^31-1 at every position where the format carries a length or count (binary length; list/set count x 11 element kinds; map count x 8 key/value kinds; nested positions; top-level containers; strict and legacy envelope name length; frame length; the same bodies behind an envelope) x every API x concrete source types (streaming APIs: a plain non-seekable reader, *bytes.Buffer, *bytes.Reader, *bufio.Reader; random-access APIs: *bytes.Reader and a plain io.ReaderAt reporting io.EOF together with the last bytes); every container/binary field of the repository's generated plugin-API types and of freshly generated programs (top level and one struct level down; containers also announcing other element types: fixed-width ones and binary, for maps key / value / both) x {FromWire(Decode), Decode(stream)} x source types (headers announcing the declared element type with a count above 2^20 over the default source only: known finding K1 makes each cost gigabytes); long payloads: every binary-length position (fields, container elements, envelope names, frame; every string / binary field of the generated types) with a real payload of 1 MiB, 1 MiB+1, 1 MiB+4096 bytes that declares 2^29 or 2^31-1 and ends there; plus rapid-generated mutated short messages over a drawn source type (also *strings.Reader, *io.SectionReader). " +
+			"Each call runs in a child process (RLIMIT_AS 6 GiB); oracle: runtime.MemStats.TotalAlloc delta <= 24 MiB + 64*N, CPU <= 2 s (re-measured alone twice; a child stops itself after 6 s of CPU in one case, and after 4 such stops the rest of its batch is not measured: the run has failed), child not killed. " +
+			"Non-trivial: the message carries a declared length >= 2^16 or is a mutation. Distinct: SHA-256 of (API, message, source type, padding).",
 		Assumptions: []string{
 			"TotalAlloc delta around one call in an otherwise idle child is the allocation caused by the call",
 			"24 MiB + 64 N is a generous reading of 'a fixed constant plus a small multiple of N' (covers the documented 1 MiB binary threshold and 10 MiB frame fast path)",
 			"the streaming body walker used for ReadRequest / ReadEnvelopeBegin (internal/bridge) allocates only per element actually read",
+			"copying the message into the concrete source (*bytes.Buffer, *strings.Reader) is part of the measured call: N bytes, inside the 64 N term",
+			"the source types are the standard library's usual ones; a reader type of the user's own with further optional interfaces is not covered",
 		},
 		Units: []Unit{
 			{Name: "grid", Pkg: "./checks/c13", Run: "^TestGrid$", Shards: [2]int{8, 8}, Weight: 2},
@@ -370,9 +373,9 @@ var plans = map[string]Plan{
 	},
 	"C18": {
 		Level: "exploration",
-		Rule: "cases are (operation list, schedule parameters): K in 2..64 operations drawn from 14 kinds (Encode, Decode+force, Decode+EvaluateValue, stream write / read / skip under drawn segmentations, envelope encode / decode, ReadRequest, DecodeRequest, and ToWire / Encode / FromWire / Decode of the generated plugin-API types) on pairwise distinct values, run concurrently after a sequential baseline, under GOMAXPROCS in {1,2,16}, with drawn yields inside the codec's I/O callbacks, forced GCs (emptying the sync.Pools) and 1..8 repetitions. In a third of the cases some decoding operations get a bad input that Decode accepts and whose forcing fails part-way (a bool byte 2..255 beneath a list / set / map key / map value, also nested so that the failure surfaces inside the ForEach callback of an outer container; for generated types a struct beneath a list or map without a required field): they must fail alone and in company, and disturb nobody. In one case of 32, two or three extra operations (mostly decoders: stream read, generated Decode, ReadRequest, Decode, envelopes) carry a binary or string of 1 MiB+1 .. 1.5 MiB (distinct fills; as a field, list / set element, map key / value, or two in one value). At the end of the case every result returned earlier (baseline and last repetition; generated values re-rendered) is compared with the model again. " +
-			"A sequential state machine over pool reuse (decode-keep / force / partial = the consumer's callback gives up after n elements, then keeps or closes the value / close / evaluate / drop / GC / decode-bad = spoiled input then EvaluateValue, ForEach+Close of everything, or kept open; one script in 8 with up to three big binaries through stream-read / decode-force / decode-keep, results held without copying until the end of the script); K concurrent Sends with distinct payloads on one frame client against a delayed, segmented echo server (synchronous and buffered pipes); frame reader / writer under segmentation and sharing; MultiServiceGenerator / MultiHandle / concurrent.Range fan-out over 1..8 in-process plugins. The whole binary runs under the race detector. " +
-			"Oracle: every concurrent result equals its sequential baseline (which equals the reference codec); an operation on a bad input fails (error, no panic) alone and concurrently; results do not change after they were returned; every still-open lazy value equals its model after every step (a spoiled one keeps failing); each Send receives the response to its own request; merged plugin output == union, conflicts and failures reported; no data race. " +
+		Rule: "cases are (operation list, schedule parameters): K in 2..64 operations drawn from 15 kinds (Encode, Decode+force, Decode+EvaluateValue, stream write / read / skip under drawn segmentations, envelope encode / decode, ReadRequest, DecodeRequest, serve = ReadRequest or DecodeRequest of a strict / legacy / un-enveloped request followed by the returned responder's EncodeResponse, WriteResponse, or WriteResponse with an Enveloper that fails part-way, and ToWire / Encode / FromWire / Decode of the generated plugin-API types) on pairwise distinct values, run concurrently after a sequential baseline, under GOMAXPROCS in {1,2,16}, with drawn yields inside the codec's I/O callbacks, forced GCs (emptying the sync.Pools) and 1..8 repetitions. In a third of the cases some decoding operations get a bad input that Decode accepts and whose forcing fails part-way (a bool byte 2..255 beneath a list / set / map key / map value, also nested so that the failure surfaces inside the ForEach callback of an outer container; for generated types a struct beneath a list or map without a required field): they must fail alone and in company, and disturb nobody. In one case of 32, two or three extra operations (mostly decoders: stream read, generated Decode, ReadRequest, Decode, envelopes) carry a binary or string of 1 MiB+1 .. 1.5 MiB (distinct fills; as a field, list / set element, map key / value, or two in one value). At the end of the case every result returned earlier (baseline and last repetition; generated values re-rendered) is compared with the model again. " +
+			"A sequential state machine over pool reuse (decode-keep / force / partial = the consumer's callback gives up after n elements, then keeps or closes the value / close / evaluate / drop / GC / decode-bad = spoiled input then EvaluateValue, ForEach+Close of everything, or kept open; one script in 8 with up to three big binaries through stream-read / decode-force / decode-keep, results held without copying until the end of the script; serve steps as in the codec unit; up to three stream writers held open across steps, written through and closed later); K concurrent Sends with distinct payloads on one frame client against a delayed, segmented echo server (synchronous and buffered pipes); frame reader / writer under segmentation and sharing; MultiServiceGenerator / MultiHandle / concurrent.Range fan-out over 1..8 in-process plugins. The whole binary runs under the race detector. " +
+			"Oracle: every concurrent result equals its sequential baseline (which equals the reference codec); an operation on a bad input fails (error, no panic) alone and concurrently; results do not change after they were returned; every still-open lazy value equals its model after every step (a spoiled one keeps failing); a response equals the reference encoding in the request's framing (name and sequence id of the request); the buffer of an open stream writer is a prefix of what was written through it and equals it after Close; each Send receives the response to its own request; merged plugin output == union, conflicts and failures reported; no data race. " +
 			"Non-trivial: K >= 4 operations of >= 2 kinds (codec), >= 4 steps of >= 2 kinds (pool), K >= 4 senders, >= 2 frames, >= 2 generators. Distinct: SHA-256 of the case JSON.",
 		Assumptions: []string{
 			"the harness does not own the Go scheduler: interleavings are sampled; the race detector reports unsynchronised access pairs without needing the bad interleaving",
